@@ -1,7 +1,7 @@
 (** Dispatch2.v — entry points of the models added after Dispatch.v (DER/token keys, hashes, key blinding, ...).
     [dispatch2] is what the OCaml runner calls; unknown names fall through to [dispatch]. *)
 From Coq Require Import Strings.String.
-From PatVerif Require Import Base.GoSem Model.Dispatch Model.TokenKey Model.Codecs Model.Derive Model.Ed25519.
+From PatVerif Require Import Base.GoSem Model.Dispatch Model.TokenKey Model.Codecs Model.Derive Model.Ed25519 Model.TokenVerify.
 Open Scope N_scope.
 
 Definition out_z (z : Z) : list (list byte) :=
@@ -38,10 +38,10 @@ Definition dispatch_derive (name : list byte) (a : list (list byte)) : option (l
   else if is name "invm" then Some [be_min (invm (narg a 0) (narg a 1))]
   else if is name "ed_blind_factor" then
     let f := ed_blind_factor (arg a 0) (arg a 1) in
-    Some [le_enc 32 f; le_enc 32 (invm order_ed25519 f); le_enc 32 (mulm order_ed25519 f (invm order_ed25519 f))]
+    Some [le_bytes 32 f; le_bytes 32 (invm order_ed25519 f); le_bytes 32 (mulm order_ed25519 f (invm order_ed25519 f))]
   else if is name "ed_mul_add" then
-    Some [le_enc 32 ((le_dec (arg a 0) * le_dec (arg a 1) + le_dec (arg a 2)) mod order_ed25519)]
-  else if is name "ed_reduce" then Some [le_enc 32 (le_dec (arg a 0) mod order_ed25519)]
+    Some [le_bytes 32 ((le_val (arg a 0) * le_val (arg a 1) + le_val (arg a 2)) mod order_ed25519)]
+  else if is name "ed_reduce" then Some [le_bytes 32 (le_val (arg a 0) mod order_ed25519)]
   else if is name "compute_index" then Some [compute_index (arg a 0) (arg a 1)]
   else if is name "origin_exponent" then Some [be_min (origin_exponent (narg a 0) (arg a 1))]
   else if is name "token_bytes" then Some [token_bytes (narg a 0) (arg a 1) (arg a 2) (arg a 3) (arg a 4)]
@@ -51,18 +51,27 @@ Definition dispatch_derive (name : list byte) (a : list (list byte)) : option (l
 
 Definition dispatch_ed (name : list byte) (a : list (list byte)) : option (list (list byte)) :=
   if is name "ed_sign_prep" then           (* seed msg -> secret scalar, nonce *)
-    Some [le_enc 32 (ed_secret_scalar (arg a 0)); le_enc 32 (ed_nonce (ed_prefix (arg a 0)) (arg a 1))]
+    Some [le_bytes 32 (ed_secret_scalar (arg a 0)); le_bytes 32 (ed_nonce (ed_prefix (arg a 0)) (arg a 1))]
   else if is name "ed_blind_sign_prep" then (* seed blind context msg -> factor, blinded secret, nonce *)
-    Some [le_enc 32 (ed_blind_factor (arg a 1) (arg a 2)); le_enc 32 (ed_blind_secret (arg a 0) (arg a 1) (arg a 2));
-          le_enc 32 (ed_nonce (ed_blind_prefix (arg a 0) (arg a 1) (arg a 2)) (arg a 3))]
+    Some [le_bytes 32 (ed_blind_factor (arg a 1) (arg a 2)); le_bytes 32 (ed_blind_secret (arg a 0) (arg a 1) (arg a 2));
+          le_bytes 32 (ed_nonce (ed_blind_prefix (arg a 0) (arg a 1) (arg a 2)) (arg a 3))]
   else if is name "ed_signature" then       (* R A msg s nonce -> 64 bytes *)
-    Some [ed_signature (arg a 0) (arg a 1) (arg a 2) (le_dec (arg a 3)) (le_dec (arg a 4))]
-  else if is name "ed_hram" then Some [le_enc 32 (ed_hram (arg a 0) (arg a 1) (arg a 2))]
+    Some [ed_signature (arg a 0) (arg a 1) (arg a 2) (le_val (arg a 3)) (le_val (arg a 4))]
+  else if is name "ed_hram" then Some [le_bytes 32 (ed_hram (arg a 0) (arg a 1) (arg a 2))]
   else if is name "ed_is_reduced" then Some [if is_reduced (arg a 0) then st_ok else st_none]
-  else if is name "ed_clamp" then Some [le_enc 32 (clamp (arg a 0))]
+  else if is name "ed_clamp" then Some [le_bytes 32 (clamp (arg a 0))]
+  else None.
+
+Definition dispatch_verify (name : list byte) (a : list (list byte)) : option (list (list byte)) :=
+  if is name "verify_token" then
+    (* type nonce ctx keyid auth | oracle: prf_ok prf_output ; answer: verdict, authenticator input *)
+    let t := mk_token a 0 in
+    let prf := fun _ : list byte => if flag (arg a 5) then Some (arg a 6) else None in
+    Some [if verify prf t then st_ok else st_none; auth_input t]
   else None.
 
 Definition dispatch2 (name : list byte) (a : list (list byte)) : list (list byte) :=
   match dispatch_tokenkey name a with Some r => r | None =>
   match dispatch_derive name a with Some r => r | None =>
-  match dispatch_ed name a with Some r => r | None => dispatch name a end end end.
+  match dispatch_ed name a with Some r => r | None =>
+  match dispatch_verify name a with Some r => r | None => dispatch name a end end end end.
